@@ -1090,16 +1090,21 @@ Qed.
 (* after every handle has been closed and the loop has run until it is not
    alive: the close callback of every handle has run, no context is left,
    uv_loop_close succeeds *)
+Definition close_all (s : st) : st := fst (apis s (map OClose (seq 0 (length (hs s))))).
+
 Definition closes_clean_stmt (fx : bool) : Prop :=
   forall t0 os beh res,
   (forall k, Forall (fun o => match o with OInit => False | _ => True end) (beh k)) ->
-  let s := fst (run fx (init t0) os beh 0) in
-  let '(s', _, _) := drain fx drain_fuel
-                       (fst (apis s (map OClose (seq 0 (length (hs s)))))) res beh 0 in
-  loop_close s' = 0 /\ live_ctx s' = 0%nat.
+  loop_close (fst (fst (drain fx drain_fuel (close_all (fst (run fx (init t0) os beh 0))) res beh 0))) = 0 /\
+  live_ctx (fst (fst (drain fx drain_fuel (close_all (fst (run fx (init t0) os beh 0))) res beh 0))) = 0%nat.
 
 Definition w_close : list op :=
   [OInit; OStart 0 1 0 10 0; OStop 0; OStart 0 2 1 10 0; ORelease w_res1; ORun].
+
+Lemma w_close_busy :
+  loop_close (fst (fst (drain false drain_fuel (close_all (fst (run false (init 1000) w_close w_nobeh 0)))
+                              w_res1 w_nobeh 0))) = UV_EBUSY.
+Proof. vm_compute. reflexivity. Qed.
 
 Theorem closes_clean_refuted :
   ~ closes_clean_stmt false /\
@@ -1109,10 +1114,11 @@ Theorem closes_clean_refuted :
     [ERet 0; ERet 0; ERet 0; EStat 0; EStat 1; EIter; EIter; EIter; EClosed 0; EFinal 0 0].
 Proof.
   split; [|split].
-  - intros H. specialize (H 1000 w_close w_nobeh w_res1).
+  - intros H.
     assert (B : forall k, Forall (fun o => match o with OInit => False | _ => True end) (w_nobeh k))
       by (intros; constructor).
-    specialize (H B). vm_compute in H. destruct H as [X _]. discriminate.
+    destruct (H 1000 w_close w_nobeh w_res1 B) as [X _].
+    rewrite w_close_busy in X. discriminate.
   - vm_compute. reflexivity.
   - vm_compute. reflexivity.
 Qed.
